@@ -316,6 +316,53 @@ R"(
         type);
 }
 
+// escapes schema-provided text so it can be put inside a C++ string or
+// character literal
+inline std::string escape_string_literal(const std::string_view str)
+{
+    std::string res;
+    res.reserve(str.size());
+    for(const auto ch : str)
+    {
+        switch(ch)
+        {
+        case '\\':
+            res += "\\\\";
+            break;
+        case '"':
+            res += "\\\"";
+            break;
+        case '\'':
+            res += "\\'";
+            break;
+        case '?':
+            // avoid trigraphs
+            res += "\\?";
+            break;
+        case '\n':
+            res += "\\n";
+            break;
+        case '\r':
+            res += "\\r";
+            break;
+        case '\t':
+            res += "\\t";
+            break;
+        default:
+            if(static_cast<unsigned char>(ch) < 0x20)
+            {
+                res += fmt::format(
+                    "\\{:03o}", static_cast<unsigned>(static_cast<unsigned char>(ch)));
+            }
+            else
+            {
+                res += ch;
+            }
+        }
+    }
+    return res;
+}
+
 inline std::string make_string_constant(
     const std::string& const_value,
     const length_t type_length,
@@ -327,7 +374,7 @@ inline std::string make_string_constant(
     }
 
     std::string value;
-    value.append("\"").append(const_value);
+    value.append("\"").append(escape_string_literal(const_value));
     // add padding if necessary
     const auto padding_length = type_length - const_value.size();
     for(std::size_t i = 0; i != padding_length; i++)
@@ -354,7 +401,7 @@ inline std::string make_char_constant(
             constant_value, type_length, location);
     }
 
-    return fmt::format("'{}'", constant_value);
+    return fmt::format("'{}'", escape_string_literal(constant_value));
 }
 
 inline std::string numeric_literal_to_value(
